@@ -148,7 +148,7 @@ def ex_rules(ctx: Ctx, shapes: Shapes, funcs=None):
     r2 = "EX2"
     ctx.rule(r2, what="no assert outside `if TYPE_CHECKING`")
     r5 = "EX5"
-    ctx.rule(r5, floor=1, what="list.pop only under suppress(IndexError) or a non-empty fact")
+    ctx.rule(r5, floor=1, what="list.pop() / del list[i] only under suppress(IndexError) or a non-empty fact")
     for fi in (funcs or functions(model)):
         r = analyze(model, fi)
         sites = {}
@@ -179,12 +179,14 @@ def ex_rules(ctx: Ctx, shapes: Shapes, funcs=None):
             ctx.ob(r2, fi.qual, f"assert {show(e.test)}", False, "assert reachable at run time (AssertionError can leak)",
                    where(fi, e.node))
         for e in r.by_kind("mutate"):
-            if e.method != "pop" or e.args:
+            # removal of the last element: x.pop() or del x[-1] (same IndexError on an empty list)
+            if not ((e.method == "pop" and not e.args) or (e.method == "delitem" and e.args and e.args[0][0] == "const")):
                 continue
             ctx.instance(r5)
             sup = any(c[0] == "with" and any("suppress" in show(x) and "IndexError" in show(x) for x in c[1]) for c in e.state.ctx)
             ne = truth(e.recv, e.state.facts) is True
-            ctx.ob(r5, fi.qual, f"{show(e.recv)}.pop()", sup or ne, "pop() on a possibly empty list outside suppress(IndexError)",
+            ctx.ob(r5, fi.qual, f"{show(e.recv)}.pop()" if e.method == "pop" else f"del {show(e.recv)}[{show(e.args[0])}]", sup or ne,
+                   "pop() / del [i] on a possibly empty list outside suppress(IndexError)",
                    where(fi, e.node), sample="inside suppress(IndexError)" if sup else "non-empty")
 
 
